@@ -2739,7 +2739,8 @@ static Type *struct_decl(Token **rest, Token *tok) {
       bits += mem->ty->size * 8;
     }
 
-    if (!ty->is_packed && ty->align < mem->align)
+    if (!ty->is_packed && ty->align < mem->align &&
+        !(mem->is_bitfield && !mem->name))
       ty->align = mem->align;
   }
 
